@@ -347,6 +347,9 @@ type transport struct{ w *World }
 func (t *transport) RoundTrip(req *http.Request) (*http.Response, error) {
 	w := t.w
 	u := req.URL.String()
+	// a network round trip is where a fetching goroutine really waits: a scheduling point of its own
+	// (the object is the transport, so that round trips are ordered among themselves like on one wire)
+	vsched.Point("h:round trip", t)
 	x := vsched.Cur()
 	w.mu.Lock()
 	n := w.attempts[u]
